@@ -187,6 +187,22 @@ func main() {
 					}
 				}
 			}
+			if err == nil && rej != "" && rej != "overflow" {
+				// The eager internal steps of the acceptor are an optimisation whose completeness is
+				// not proved: a rejection only counts if the acceptor without them (state merging
+				// only, proved sound and complete) rejects too.
+				rejE, mE, _, errE := include(d, "fixed eager=0", used, false)
+				switch {
+				case errE != nil:
+					err = errE
+				case rejE == "":
+					res.Hit("eager-steps-spurious-rejection")
+					res.Note("acceptor with eager steps rejected a trace that the acceptor without them accepts: " + rej)
+					rej, maxSet = "", mE
+				case rejE == "overflow":
+					rej = "overflow"
+				}
+			}
 			if err != nil {
 				res.Note("model driver failed: " + err.Error())
 				d = nil
